@@ -17,7 +17,7 @@ import (
 )
 
 var srvDevKinds = []string{
-	"none", "drop-hdr", "dup-hdr", "hdr-after-msg", "drop-msg-first", "drop-msg-cont", "dup-msg", "envelope-inside", "data-plus1", "data-plus1-noclose", "envelope-inside-noclose", "size-plus1", "size-minus1", "size-64MiB", "size-max",
+	"none", "drop-hdr", "dup-hdr", "hdr-after-msg", "drop-msg-first", "drop-msg-cont", "dup-msg", "envelope-inside", "data-plus1", "data-plus1-noclose", "envelope-inside-noclose", "envelope-after-empty-chunk", "overrun-one-frame", "size-plus1", "size-minus1", "size-64MiB", "size-max",
 	"dup-close", "frame-after-close", "settings-on-stream", "empty-frame", "retarget-unknown-id", "retarget-negative-id", "retarget-finished-id",
 	"win-absurd", "win-zero", "overrun", "no-response", "two-responses", "close-error", "close-first", "big-chunk",
 }
@@ -108,6 +108,12 @@ func famRawSrv(w *World, c *Case, rng *rand.Rand) {
 			// malformed response, must finish it alone (and tell the peer)
 			frames = frames[:len(frames)-1]
 		}
+	case "envelope-after-empty-chunk":
+		// a message is announced (size > 0) with an empty first chunk, and then another envelope
+		// arrives: the first message was never completed
+		frames = append(append([]*tunnelpb.ServerToClient{}, frames[:1]...), append([]*tunnelpb.ServerToClient{sMsg(0, uint32(len(payload)), nil)}, frames[1:]...)...)
+		expect = "fail"
+		sentComplete = map[int]bool{}
 	case "data-plus1", "data-plus1-noclose":
 		last := frames[len(frames)-2]
 		switch fr := last.Frame.(type) {
@@ -169,6 +175,13 @@ func famRawSrv(w *World, c *Case, rng *rand.Rand) {
 		frames = append(frames, sClose(0, 0, "", trl))
 		expect = "rexhausted"
 		sentComplete = map[int]bool{len(big): true}
+	case "overrun-one-frame":
+		// a single frame one byte larger than the caller's window, arriving while the caller's reader
+		// is parked on an empty queue (Invoke) or before it reads (the streaming shapes)
+		big := make([]byte, 65537)
+		frames = []*tunnelpb.ServerToClient{sHdr(0, hdr), sMsg(0, uint32(len(big)), big), sClose(0, 0, "", trl)}
+		expect = "rexhausted"
+		sentComplete = map[int]bool{}
 	case "no-response":
 		frames = []*tunnelpb.ServerToClient{sHdr(0, hdr), sClose(0, 0, "", trl)}
 		nmsgs = 0
@@ -354,7 +367,7 @@ func famRawSrv(w *World, c *Case, rng *rand.Rand) {
 				// between frames and the burst is no overrun from the receiver's point of view.
 				// Only a consumer that is verifiably not reading (the streaming shapes wait for
 				// "read") makes ResourceExhausted the one legal outcome.
-				keptUp := shape == "Unary" && vt.K == "invoke" && vt.Err == "" && vt.GotOK && vt.GotSize == 200000
+				keptUp := kind == "overrun" && shape == "Unary" && vt.K == "invoke" && vt.Err == "" && vt.GotOK && vt.GotSize == 200000
 				if keptUp {
 					w.Stat("rawsrv_overrun_consumer_kept_up", 1)
 				} else if vt.Code != codes.ResourceExhausted {
